@@ -125,6 +125,21 @@ def build(tier, seed, variant='', harness_args=('rows', 'extra'), n=None, maxops
     return res
 
 
+def variant(res, name, flags):
+    """the same cases run again with extra harness flags (evict / sqlite restart / threads); cached beside the corpus"""
+    out = os.path.join(res['dir'], f'impl-{name}.txt')
+    done = out + '.done'
+    if os.path.exists(done):
+        return out, json.load(open(done))
+    wd = os.path.join(res['dir'], f'var-{name}')
+    shutil.rmtree(wd, ignore_errors=True)
+    os.makedirs(wd)
+    errs = run_harness(res['cases'], out, wd, tuple(flags))
+    shutil.rmtree(wd, ignore_errors=True)
+    json.dump(errs, open(done, 'w'))
+    return out, errs
+
+
 def prune_old(keep):
     base = os.path.dirname(keep)
     ds = sorted((os.path.join(base, x) for x in os.listdir(base) if x.startswith('engine-')), key=os.path.getmtime)
